@@ -19,6 +19,8 @@
 #include <sys/wait.h>
 #include <sys/stat.h>
 #include <sys/mman.h>
+#include <sys/resource.h>
+#include <signal.h>
 #include <pthread.h>
 #include <semaphore.h>
 #include <time.h>
@@ -72,8 +74,16 @@ static char fdclass(int fd) {
   return cache[fd];
 }
 
-static void bkp_write_seen(void);
+static void bkp_write_seen(int fd);
+// fault injection on the backup target (op F<k>): at its k-th write RLIMIT_FSIZE is lowered to the target's current
+// size, so exactly that write fails with EFBIG; the limit is restored at the next file effect of the process
+static int g_fail_at, g_fail_armed;
+static struct rlimit g_rl_saved;
+static void fail_restore(void) {
+  if (g_fail_armed) { setrlimit(RLIMIT_FSIZE, &g_rl_saved); g_fail_armed = 0; }
+}
 static void fx(int kind, int fd, long long off, long long len) {
+  fail_restore();
   if (kind == FX_WALREC) {
     long long v[3] = { fd, off, len };
     for (int i = 0; i < 3; ++i) for (int k = 0; k < 8; ++k) {
@@ -85,7 +95,7 @@ static void fx(int kind, int fd, long long off, long long len) {
   if (!g_fx_on) return;
   char c = kind == FX_WALREC ? 'R' : kind == FX_MSYNC ? 'M' : fdclass(fd);
   if (c == 'O') { // trace file, backup target etc. are not effects on the store
-    if (kind == FX_WRITE && fd != g_trace_fd) bkp_write_seen();
+    if (kind == FX_WRITE && fd != g_trace_fd) bkp_write_seen(fd);
     return;
   }
   if (g_trace_fx) tr("F %lld %d %c %lld %lld\n", g_fx_n, kind, c, off, len);
@@ -328,6 +338,21 @@ static void exec_op(int i) {
   } else if (op[0] == 'n') {
     struct iwdb *db = 0;
     rc = iwkv_db(kv, (uint32_t) (op[1] - '0'), 0, &db); dumpit = 1;
+  } else if (op[0] == 'F') {
+    // F<k>: online backup into <dir>/bkp whose k-th write to the target fails (disk full); no writer inside.
+    // A backup that does not come back within 10 s is reported as a hang (exit=SIG14).
+    char bp[700]; uint64_t ts = 0;
+    snprintf(bp, sizeof(bp), "%s/bkp", g_dir);
+    g_fail_at = atoi(op + 1);
+    g_inj_at = 1 << 30; g_inj_n = 0; g_inj_done = 0; g_bkp_writes = 0; g_threaded = 0;
+    g_bkp_thread = pthread_self(); g_bkp_before_calls = 0;
+    g_bkp_active = 1;
+    alarm(10);
+    rc = iwkv_online_backup(kv, &ts, bp);
+    alarm(120);
+    g_bkp_active = 0; g_fail_at = 0;
+    fail_restore();
+    tr("K 0 %d 1\n", g_bkp_writes);
   } else if (op[0] == 'X' || op[0] == 'Y') {
     // X: a second online backup (target <dir>/bkp2, pre-filled with a sentinel) - meant to be released into a
     //    running one; Y: an ordinary backup into <dir>/bkp3 after the first one returned
@@ -410,9 +435,22 @@ static void inject_now(void) {
   g_bkp_active = 1;
 }
 
-static void bkp_write_seen(void) {
+static void bkp_write_seen(int fd) {
   if (!g_bkp_active) return;
   g_bkp_writes++;
+  if (g_fail_at && g_bkp_writes == g_fail_at) {
+    struct stat st;
+    if (!fstat(fd, &st)) {
+      struct rlimit rl;
+      getrlimit(RLIMIT_FSIZE, &g_rl_saved);
+      rl = g_rl_saved;
+      rl.rlim_cur = (rlim_t) st.st_size;
+      signal(SIGXFSZ, SIG_IGN);
+      tr("G fail %d %lld\n", g_bkp_writes, (long long) st.st_size);
+      if (!setrlimit(RLIMIT_FSIZE, &rl)) g_fail_armed = 1;
+    }
+    return;
+  }
   // only while the main file is being copied: later stages hold the exclusive lock
   if (g_bkp_writes == g_inj_at && !g_inj_done && g_inj_at <= g_bkp_main_chunks) inject_now();
 }
@@ -550,6 +588,13 @@ int main(void) {
       int st = 0;
       waitpid(pid, &st, 0);
       if (WIFSIGNALED(st)) printf("%s exit=SIG%d %s\n", tv[0], WTERMSIG(st), res); else printf("%s exit=%d %s\n", tv[0], WEXITSTATUS(st), res);
+    } else if (!strcmp(tv[0], "cp") && n >= 3) {
+      // copy <src>/db, <src>/db-wal into <dst>/ (files of a crashed run, kept for the model)
+      char a[700], b[700];
+      mkdir(tv[2], 0700);
+      snprintf(a, sizeof(a), "%s/db", tv[1]); snprintf(b, sizeof(b), "%s/db", tv[2]); snap(a, b);
+      snprintf(a, sizeof(a), "%s/db-wal", tv[1]); snprintf(b, sizeof(b), "%s/db-wal", tv[2]); snap(a, b);
+      printf("cp ok\n");
     } else {
       printf("?\n");
     }
